@@ -5,7 +5,7 @@ import ast
 from fractions import Fraction
 
 from ..astutil import (call_name, calls_in, const_value, find_func, is_self_attr, names_in, parse_expr, parse_stmt,
-                       replace_node, tuple_assign_pairs)
+                       replace_node, tuple_assign_pairs, inline_single_defs)
 from ..frontend import AnalysisError, walk_function, walk_stmts
 from ..nf import RF, to_nf, NFUnsupported
 from ..report import norm_text
@@ -600,6 +600,27 @@ def _r1(ctx):
         for i, a in enumerate(c.args):
             if i < len(tf.params):
                 binding[tf.params[i]] = a
+        starred = [a_ for a_ in c.args if isinstance(a_, ast.Starred)]
+        if len(starred) == 1 and len(c.args) == 1 and not c.keywords:
+            # *columns: the columns must have been selected by a literal list of names (then they bind in that order); a
+            # selection that keeps the order of the caller's frame (filter(regex/like), all columns, positions) is the culprit
+            src = inline_single_defs(fi.node, starred[0].value)
+            lists = [x.slice for x in ast.walk(src) if isinstance(x, ast.Subscript) and is_self_attr(x.value, "_obj") and
+                     isinstance(x.slice, (ast.List, ast.Tuple)) and all(isinstance(const_value(e_), str) for e_ in x.slice.elts)]
+            frame_order = [x for x in ast.walk(src) if (isinstance(x, ast.Call) and isinstance(x.func, ast.Attribute) and
+                                                        x.func.attr in ("filter", "select_dtypes", "to_numpy", "iloc") and
+                                                        any(is_self_attr(y, "_obj") for y in ast.walk(x.func.value))) or
+                           (isinstance(x, ast.Attribute) and x.attr in ("values", "iloc") and is_self_attr(x.value, "_obj"))]
+            if len(lists) == 1 and len(lists[0].elts) == len(tf.params):
+                for p_, e_ in zip(tf.params, lists[0].elts):
+                    binding[p_] = ast.Subscript(value=parse_expr("self._obj"), slice=e_, ctx=ast.Load())
+                c = ast.copy_location(ast.Call(func=c.func, args=[], keywords=[]), c)
+            elif not lists and frame_order:
+                n += 1
+                ctx.violated(f0, cs[0], "%s: the stress components handed to %s are the columns of the caller's frame in the order "
+                             "the frame has them (%s): with another column order every component is another one" %
+                             (name, target, norm_text(src)[:80]), text="%s columns in frame order" % name)
+                continue
         if any(k.arg is None for k in c.keywords) or any(isinstance(a_, ast.Starred) for a_ in c.args):
             raise AnalysisError("accessor method %s: the arguments of %s are passed through */** that could not be resolved" % (name, target))
         for k in c.keywords:
